@@ -50,10 +50,10 @@ CLAIMED = {
             "Theorems C02_cut_no_panic and C02_intact hold for every configuration, stream and cut position. PARTIAL: the safety statement proper (reported sent => completely received) and convergence are Props decided per run: every cut position (quick: strided plus all positions near line ends, EOTs and the end; thorough: all) of recorded exchanges in both directions on two real sessions, ProcessInbound failing at each inbound message, 25 (300) histories of faulty sessions followed by a clean one on the reference handler with de-duplication, and 15 (150) on the real directory mailbox; the side that sees exactly k bytes is compared with the model side on that prefix.",
             "The cutting side's own input depends on goroutine timing and is judged by the oracle only; DirHandler.SetSent's log.Fatalf is outside the histories (it is only reached when a file disappears).",
             "DESIGN.md section 6 C02"),
-    "C03": ("Coq proof that the model of Exchange never reaches a panic for any configuration and any received bytes + real sessions on mutated transcripts, damaged payloads and arbitrary bytes under watchdog, allocation bound and address-space limit, compared with the model",
-            "Theorem C03_no_panic holds for every configuration and every byte sequence: each index/slice of the Go code on remote data is a checked operation of the model and is shown unreachable out of range (after seven fix: commits). PARTIAL: termination within the linear fuel and the result classes are Props decided per run: 2500 (40000) mutations of recorded transcripts at every layer, scripted masters with damaged compressed payloads and damaged messages (negative/huge sizes), arbitrary bytes, both roles; oracle: returns, no panic, connection closed, allocation bound; wire bytes, callbacks, stats and result class compared with the model.",
-            "The model stands for the code through the correspondence; bufio/fmt/strconv/strings semantics are modelled (UTF-8 rune sums and Unicode TrimSpace included); memory use is observed, not proved.",
-            "DESIGN.md section 6 C03"),
+    "C03": ("Coq proof that the model of Exchange never reaches a panic and never runs out of fuel (the session loop ends) for any configuration and any received bytes + real sessions on mutated transcripts, damaged payloads and arbitrary bytes under watchdog, allocation limit and address-space limit",
+            "Theorems C03_no_panic, C03_terminates and C03_result hold for every configuration and every byte sequence: each index/slice of the Go code on remote data is a checked operation of the model and is shown unreachable out of range (after seven fix: commits); every inbound turn consumes at least one line of input and no step lengthens what is left to read, so the turn loop ends with nil, connection-lost or an error. The model is tied to fbb by correspondence of the wire bytes, handler callbacks and result on every generated transcript.",
+            "The LZHUF reader inside Proposal.Message has its own bound in the model (C08's open termination statement); the model stands for the code through the correspondence; bufio/fmt/strconv/strings/regexp semantics are modelled (UTF-8 rune sums, Unicode TrimSpace, the SID regular expression included); memory use is observed, not proved.",
+            "DESIGN.md section 6 C03 and section 11"),
     "C04": ("Coq proof that every message handed to the inbound handler passed the frame checks, the LZHUF Close (CRC-16, size) and the message parser, for all inputs + every single-byte alteration of the SOH..EOT range replayed on real receiver and sender",
             "Theorems C04_integrity/C04_payload/C04_frames/C04_unaltered_accepted hold for every configuration and every received byte sequence. The per-run check alters each transfer at every offset (substitution, deletion, insertion, checksum-compensating pairs), feeds it to a real slave session and the slave's answers to a real master: a delivered message must be byte-identical to the queued one and the sender may record it sent only if it was delivered; the receiver is compared with the model on the same bytes.",
             "That CRC-16 plus size detect a given corruption is a property of the code (probabilistic for compensating changes), checked per run; 'alterations an independent reference also accepts' are those that leave the payload bytes intact (e.g. in the title).",
@@ -80,7 +80,7 @@ CLAIMED = {
             "DESIGN.md section 6 C14"),
     "C15": ("Coq proof of the telnet login as functions of the received byte streams (client against any server script, server for any callsign/password, hand-over of the remaining bytes, deadline decision logic) + correspondence and property oracles on loopback TCP against the library's own listener and scripted peers",
             "Theorems C15_clean_streams/C15_client/C15_server/C15_trim_identity/C15_deadline/C15_ok_is_login hold for every callsign and password without CR, every payload, every banner/garbage script and every arrival schedule of the model. The tie: 60 (500) logins each of library client vs library server, library client vs scripted server (split prompts, coalesced payload, everything in one write) and library server vs scripted client compared with the model and judged by the property; 12 (60) dials against silent / half-prompt / garbage / closing servers timed against their limit.",
-            "PARTIAL for the deadline: that a blocked read ends at the connection's deadline is the Go net package's behaviour (observed, +400 ms tolerance), the theorem covers the decision logic only. Two fix: commits (buffered bytes lost after login; login ignored the context) precede this check; known finding: a callsign with outer white space is reported trimmed. Unicode lower-casing of prompt lines is modelled for ASCII only.",
+            "PARTIAL for the deadline: that a blocked read ends at the connection's deadline is the Go net package's behaviour (observed, +1.5 s tolerance), the theorem covers the decision logic only. Two fix: commits (buffered bytes lost after login; login ignored the context) precede this check; known finding: a callsign with outer white space is reported trimmed. Unicode lower-casing of prompt lines is modelled for ASCII only.",
             "DESIGN.md section 6 C15"),
     "C17": ("Coq proof that every interleaving of transfer loop and reporter yields a report sequence accepted by an independent judge (extracted and used as the live judge of the real sessions' reports) + Go race detector on a -race build of the harness over paced sessions",
             "Theorems C17_send_reports/C17_recv_reports/C17_judge hold for every event interleaving, transmit-buffer length and message size of the model, whose only shared state is the one counter the code shares after the fix: commit. PARTIAL: absence of data races is a property of the Go memory model that this development cannot state; it is decided per run by the race detector over 20 (120) paced session pairs (block delays 0..300 ms, with and without a transmit-buffer-reporting transport), i.e. dynamically on sampled schedules.",
